@@ -143,7 +143,12 @@ fn cmd_check(args: &[String]) {
         None
     };
 
-    let (corpus_n, mut stats) = run_corpus(prop, o.tier, &vd, &known);
+    // OHV_NO_CORPUS=1: sensitivity experiments only (is a mutant found by generated search alone?)
+    let (corpus_n, mut stats) = if std::env::var("OHV_NO_CORPUS").is_ok() {
+        (0, Stats::default())
+    } else {
+        run_corpus(prop, o.tier, &vd, &known)
+    };
     if stats.failure.is_none() && stats.harness_error.is_none() {
         let cfg = RunConfig {
             tier: o.tier,
